@@ -26,6 +26,10 @@ TABLE = {
                 text="For every registry in bounds all permutations of class records (n<=4) / reversal and rotations (n=5), all definition orders, both method orders: every observable equals the first permutation's and the order-free model's.", ref="3/C06"),
     "C08": dict(engine="E1 regx", technique="exhaustive enumeration of presentations of every inheritance graph in bounds (subsets between direct and transitive bases, self, duplicates, split records, rotations, record orders)",
                 text="For every poset in bounds every presentation: the lattice the real compiler reconstructs (covariant sets, direct bases), slot disjointness, dispatch and next all equal the model's.", ref="3/C08"),
+    "C10": dict(engine="E1 regx", technique="bounded-exhaustive exploration of the same registries under six RTTI flavours (std, integer, many-to-one projection with/without hash, deferred with/without hash), all alias assignments, second update; reference model + cross-flavour digest",
+                text="Every registry in bounds is compiled and called under each RTTI flavour, each followed by a second update; for the two-ids-per-class flavours every assignment of aliases to every use of a class id (exhaustive up to 2^10..2^12, patterns beyond) and every alias of every argument. All outcomes equal the model and a digest of all outcomes is identical across flavours.", ref="3/C10"),
+    "C15": dict(engine="E1 regx", technique="bounded-exhaustive exploration: every registry x every class left out x every place and argument route, on the stock debug policy, with AddressSanitizer as crash/garbage-read monitor",
+                text="Every registry in bounds x each class omitted in turn from its record while still used as base / method parameter / definition parameter (update must report unknown_class_error with its id) or only as the dynamic class of an argument on 8 argument routes incl. exact-type virtual_ptr (error at call/construction, no body run, no crash); final with a wrong dynamic type gives method_table_error.", ref="3/C15"),
     "C17": dict(engine="E1 regx", technique="bounded-exhaustive exploration of registries x all abstract-flag assignments: update report vs exhaustive tuple enumeration by the reference model",
                 text="Every registry in bounds x every subset of abstract classes: per-method and total report flags (gaps, ambiguities, concrete variants) iff the model finds such a tuple; cell count equals tables built and installed.", ref="3/C17"),
     "C05": dict(engine="E3 hashx", technique="exhaustive enumeration of a finite alphabet of id sets x publish histories (all sequences up to depth 3/4) x search budgets, on the real hash_initialize / publish_vptrs / hash_type_id",
